@@ -54,6 +54,73 @@ impl<S: Scheduler> Scheduler for ClockAware<S> {
   }
 }
 
+/// Priority scheduling in the style of PCT, usable together with the virtual clock (shuttle's own PctScheduler asserts
+/// when the runnable set is filtered): every task gets a random priority when it is first seen, the runnable task
+/// with the highest priority runs, and at `depth` random change points the running task drops below all others.
+/// It explores what uniform random choice practically never does: one thread running far ahead of another.
+/// The clock task runs only when nothing else can.
+struct Priority {
+  seed: u64,
+  state: u64,
+  started: bool,
+  prios: HashMap<usize, u64>,
+  step: u64,
+  changes: Vec<u64>,
+  low: u64,
+}
+
+impl Priority {
+  fn new(seed: u64) -> Priority {
+    Priority { seed, state: seed ^ 0x9E37_79B9_7F4A_7C15, started: false, prios: HashMap::new(), step: 0, changes: Vec::new(), low: 1 << 20 }
+  }
+  fn rnd(&mut self) -> u64 {
+    // splitmix64
+    self.state = self.state.wrapping_add(0x9E37_79B9_7F4A_7C15);
+    let mut z = self.state;
+    z = (z ^ (z >> 30)).wrapping_mul(0xBF58_476D_1CE4_E5B9);
+    z = (z ^ (z >> 27)).wrapping_mul(0x94D0_49BB_1331_11EB);
+    z ^ (z >> 31)
+  }
+}
+
+impl Scheduler for Priority {
+  fn new_execution(&mut self) -> Option<Schedule> {
+    if self.started {
+      return None;
+    }
+    self.started = true;
+    self.prios.clear();
+    self.step = 0;
+    self.low = 1 << 20;
+    let horizon = 20 + self.rnd() % 600;
+    self.changes = (0..3).map(|_| 1 + self.rnd() % horizon).collect();
+    Some(Schedule::new(self.seed))
+  }
+  fn next_task(&mut self, runnable: &[&Task], current: Option<TaskId>, is_yielding: bool) -> Option<TaskId> {
+    let others: Vec<&Task> = runnable.iter().copied().filter(|t| t.name().as_deref() != Some("verif-clock")).collect();
+    let cands: Vec<&Task> = if others.is_empty() { runnable.to_vec() } else { others };
+    self.step += 1;
+    for t in cands.iter() {
+      let id = usize::from(t.id());
+      if !self.prios.contains_key(&id) {
+        let p = (1 << 21) + self.rnd() % (1 << 20);
+        self.prios.insert(id, p);
+      }
+    }
+    if let Some(c) = current {
+      if is_yielding || self.changes.contains(&self.step) {
+        self.low -= 1;
+        let l = self.low;
+        self.prios.insert(usize::from(c), l);
+      }
+    }
+    cands.iter().max_by_key(|t| self.prios.get(&usize::from(t.id())).copied().unwrap_or(0)).map(|t| t.id())
+  }
+  fn next_u64(&mut self) -> u64 {
+    self.rnd()
+  }
+}
+
 pub struct Outcome {
   pub status: String,
   pub detail: String,
@@ -81,6 +148,9 @@ pub fn execute(seed: u64, strategy: &str, body: Arc<dyn Fn() + Send + Sync>) -> 
   };
   let r = if pct {
     let s = PctScheduler::new_from_seed(seed, 3, 1);
+    catch_unwind(AssertUnwindSafe(|| shuttle::Runner::new(s, config).run(run)))
+  } else if strategy == "pri" {
+    let s = Priority::new(seed);
     catch_unwind(AssertUnwindSafe(|| shuttle::Runner::new(s, config).run(run)))
   } else {
     let s = ClockAware(RandomScheduler::new_from_seed(seed, 1));
@@ -279,7 +349,14 @@ fn main() {
     for i in 0..iters {
       let s = if exact { seed } else { seed.wrapping_mul(1_000_003).wrapping_add(i) };
       let strat = if sc.timed() {
-        "random"
+        // timed scenarios: uniform random choice, and (in `mixed`) every third execution the priority scheduler
+        if strategy == "mixed" && i % 3 == 2 {
+          "pri"
+        } else if strategy == "pri" {
+          "pri"
+        } else {
+          "random"
+        }
       } else if strategy == "mixed" {
         if i % 3 == 2 {
           "pct"
